@@ -189,6 +189,26 @@ def walk_features(prog, f, mode):
     return feats, problems
 
 
+def memo_rule(prog, rep):
+    # M: memoising thunk
+    rep.rule("C04.M", "a lazy scoped definition stores `store.add(value)` (a memoising thunk), not the raw lazy expression")
+    al = [f for f in prog.find(self_ty="tsg::ast::ScopedVariable", name="add_lazy")]
+    if len(al) != 1:
+        rep.violation("C04.M", "anchor-lost:add_lazy", "", "not found")
+    else:
+        f = al[0]
+        tr = Tracer(f.body)
+        sa = [(b, t) for b, t in f.body.calls() if is_callee(t, r"LazyScopedVariables::add$")]
+        ok = False
+        for b, t in sa:
+            v = canon(tr.operand(t["args"][3]))
+            if re.match(r"^Into::into\(LazyStore::add\(&\*\*arg:exec\.store, arg:value, ", v):
+                ok = True
+            detail = v
+        rep.check(ok, "C04.M", "%s :: value" % f.id, f.loc(), "scoped_store.add(scope, name, store.add(value).into(), …)",
+                  "the scoped store receives %s instead of a store thunk of the value" % (detail[:160] if sa else "nothing"))
+
+
 def run(prog, rep):
     n, ncasts = key_rule(prog, rep)
     rep.floor("C04.K", n, 6, "keyed accesses of syntax-node maps")
@@ -264,23 +284,9 @@ def run(prog, rep):
                         if st["k"] == "assign" and st["rv"]["k"] == "aggregate" and st["rv"].get("variant") == variant:
                             ok = True
         rep.check(ok, "C04.D", "%s :: undefined" % fid, "", "a failed lookup constructs %s" % variant, "a failed lookup does not construct %s" % variant)
-    # M: memoising thunk
-    rep.rule("C04.M", "a lazy scoped definition stores `store.add(value)` (a memoising thunk), not the raw lazy expression")
-    al = [f for f in prog.find(self_ty="tsg::ast::ScopedVariable", name="add_lazy")]
-    if len(al) != 1:
-        rep.violation("C04.M", "anchor-lost:add_lazy", "", "not found")
-    else:
-        f = al[0]
-        tr = Tracer(f.body)
-        sa = [(b, t) for b, t in f.body.calls() if is_callee(t, r"LazyScopedVariables::add$")]
-        ok = False
-        for b, t in sa:
-            v = canon(tr.operand(t["args"][3]))
-            if re.match(r"^Into::into\(LazyStore::add\(&\*\*arg:exec\.store, arg:value, ", v):
-                ok = True
-            detail = v
-        rep.check(ok, "C04.M", "%s :: value" % f.id, f.loc(), "scoped_store.add(scope, name, store.add(value).into(), …)",
-                  "the scoped store receives %s instead of a store thunk of the value" % (detail[:160] if sa else "nothing"))
+    memo_rule(prog, rep)
+    from . import C02
+    C02.lazy_phases(prog, rep)
     # E2.d over the scoped-variable code
     rep.rule("E2.d", "no failure of the scoped-variable code paths is dropped")
     fns = [f for f in prog.fns.values() if f.crate.prefix == "tsg" and (
